@@ -28,3 +28,93 @@ contract(
     modifies=CURSOR,
     must_fail=["self._index == old(self._index)"],
 )
+
+contract(
+    P, "Parser._retreat", props=["C05"],
+    requires=["self._tokens_size == len(self._tokens)", "index >= 0", "index <= self._tokens_size", "cursor_ok(self)"],
+    ensures=["self._index == index", "cursor_ok(self)"],
+    modifies=CURSOR,
+)
+
+contract(
+    P, "Parser._advance_chunk", props=["C05"],
+    requires=["self._chunk_index >= 0", "self._chunk_index < len(self._chunks)", "is_list(self._chunks[self._chunk_index])"],
+    ensures=["self._index == 0", "self._tokens is old(self._chunks[self._chunk_index])", "cursor_ok(self)",
+             "self._chunk_index == old(self._chunk_index) + 1"],
+    modifies=CURSOR + ["self._tokens", "self._tokens_size", "self._chunk_index"],
+    
+)
+
+# _add_comments only touches comments (expression.comments, self._prev_comments): declared opaque with that frame
+ADD_COMMENTS = {"self._add_comments": dict(havoc=["self._prev_comments", "*.comments", "*._hash"], returns="none")}
+
+MATCH_REQ = ["cursor_ok(self)", "tokens_real(self)"]
+
+contract(
+    P, "Parser._match", props=["C05"],
+    requires=MATCH_REQ + ["token_type is not TokenType.SENTINEL"],
+    ensures=[
+        "is_bool(result)",
+        "implies(result is True and advance, self._index == old(self._index) + 1)",
+        "implies(result is False or not advance, cursor_fields_same(self))",
+        "iff(result is True, old(self._curr.token_type) is token_type)",
+        "cursor_ok(self)",
+    ],
+    modifies=CURSOR + ["*.comments", "*._hash"],
+    opaque=ADD_COMMENTS,
+    types={"token_type": "TokenType", "advance": "bool"},
+)
+
+contract(
+    P, "Parser._match_set", props=["C05"],
+    requires=MATCH_REQ + ["not (TokenType.SENTINEL in types)"],
+    ensures=[
+        "implies(result is True and advance, self._index == old(self._index) + 1)",
+        "implies(result is False or not advance, cursor_fields_same(self))",
+        "cursor_ok(self)", "is_bool(result)",
+    ],
+    modifies=CURSOR,
+    types={"advance": "bool"},
+)
+
+contract(
+    P, "Parser._match_pair", props=["C05"],
+    requires=MATCH_REQ + ["token_type_a is not TokenType.SENTINEL", "token_type_b is not TokenType.SENTINEL"],
+    ensures=[
+        "implies(result is True and advance, self._index == old(self._index) + 2)",
+        "implies(result is False or not advance, cursor_fields_same(self))",
+        "cursor_ok(self)", "is_bool(result)",
+    ],
+    modifies=CURSOR,
+    types={"token_type_a": "TokenType", "token_type_b": "TokenType", "advance": "bool"},
+)
+
+contract(
+    P, "Parser._match_texts", props=["C05"],
+    requires=MATCH_REQ + ["TokenType.SENTINEL in self.TEXT_MATCH_EXCLUDED_TOKENS"],
+    ensures=[
+        "implies(result is True and advance, self._index == old(self._index) + 1)",
+        "implies(result is False or not advance, cursor_fields_same(self))",
+        "cursor_ok(self)", "is_bool(result)",
+    ],
+    modifies=CURSOR,
+    types={"advance": "bool"},
+)
+
+contract(
+    P, "Parser._match_text_seq", props=["C05"],
+    requires=MATCH_REQ + ["TokenType.SENTINEL in self.TEXT_MATCH_EXCLUDED_TOKENS"],
+    ensures=[
+        "implies(result is True and advance, self._index == old(self._index) + len(texts))",
+        "implies(result is False or not advance, cursor_fields_same(self))",
+        "cursor_ok(self)", "is_bool(result)",
+    ],
+    modifies=CURSOR,
+    types={"advance": "bool", "texts": "str", "index": "int"},
+    loops={0: dict(
+        fp="text in texts",
+        inv=["self._index == index + _k0", "index == old(self._index)", "cursor_ok(self)", "_k0 <= len(texts)",
+             "excluded_tokens is self.TEXT_MATCH_EXCLUDED_TOKENS"],
+        dec="len(texts) - _k0",
+    )},
+)
